@@ -97,6 +97,9 @@ func script(r Req, p string) ledger.RunScript {
 		sb.WriteString("vars {\n" + strings.Join(decl, "") + "}\n")
 	}
 	sb.WriteString(body.String())
+	if r.Kind == "create" && r.Mval == "am" {
+		sb.WriteString("set_account_meta(@c, \"tag\", \"v\")\n")
+	}
 	return ledger.RunScript{
 		Script:    ledger.Script{Plain: sb.String(), Vars: vars},
 		Metadata:  metadata.Metadata{"req": p},
@@ -243,6 +246,9 @@ func absLog(prev, l *ledger.ChainedLog, by string, od bool) map[string]any {
 		m["txid"] = p.Transaction.ID.Int64()
 		m["postings"] = absPostings(p.Transaction.Postings)
 		m["ref"] = p.Transaction.Reference
+		if len(p.AccountMetadata) > 0 {
+			m["mval"] = "am"
+		}
 	case ledger.RevertedTransactionLogPayload:
 		m["kind"] = "rev"
 		m["txid"] = p.RevertTransaction.ID.Int64()
@@ -280,14 +286,18 @@ func (r *recorder) Publish(topic string, messages ...*message.Message) error {
 		}
 		_ = json.Unmarshal(msg.Payload, &ev)
 		out := map[string]any{"ev": "publish", "by": sched.ProcOf(msg.Context()), "txid": int64(-1), "target": int64(-1),
-			"tacct": "", "postings": []Posting{}, "topic": topic}
+			"tacct": "", "postings": []Posting{}, "topic": topic, "mval": ""}
 		switch ev.Type {
 		case "COMMITTED_TRANSACTIONS":
 			var p struct {
-				Transactions []ledger.Transaction `json:"transactions"`
+				Transactions    []ledger.Transaction         `json:"transactions"`
+				AccountMetadata map[string]metadata.Metadata `json:"accountMetadata"`
 			}
 			_ = json.Unmarshal(ev.Payload, &p)
 			out["type"] = "committed"
+			if len(p.AccountMetadata) > 0 {
+				out["mval"] = "am"
+			}
 			if len(p.Transactions) > 0 {
 				out["txid"] = p.Transactions[0].ID.Int64()
 				out["postings"] = absPostings(p.Transactions[0].Postings)
